@@ -60,6 +60,10 @@ def dedicated():
         "ent-anyall": [D("bb", BUN, "Bundle"), ("place", "l1", "small-lamp", I(10), I(20), None),
                        ("prop", "l1", "enable", B(">", ("any", V("bb")), ("paren", B("+", I(1), I(1)))))],
     }
+    ent["ent-fanout-far"] = [D("lit", B(">", B("*", A, I(3)), I(10)))] + [x for n, px in enumerate((0, 2, 40)) for x in
+                             (("place", f"l{n}", "small-lamp", I(px), I(0), None), ("prop", f"l{n}", "enable", B(">", V("lit"), I(0))))]
+    ent["ent-fanout-far-arith"] = [D("t1", B("+", A, C))] + [x for n, px in enumerate((0, 3, 44, 46)) for x in
+                                   (("place", f"l{n}", "small-lamp", I(px), I(2), None), ("prop", f"l{n}", "enable", B(">", V("t1"), I(n))))]
     for tag, body in ent.items():
         yield tag, body, [], None
 
